@@ -30,7 +30,7 @@ var traceCodes = map[string][2]int64{
 	"snap.pos": {7, 0}, "ckpt.run": {8, 0},
 }
 
-var traceDropped int
+var traceDropped, traceTotal int
 
 func emitTrace(cw *CaseWriter, label string) int {
 	evs, dropped := litestream.VerifTraceEvents()
@@ -83,5 +83,6 @@ func emitTrace(cw *CaseWriter, label string) int {
 	for _, o := range ids {
 		emit(project(o), fmt.Sprintf("trace/%s", label))
 	}
+	traceTotal += len(evs)
 	return len(evs)
 }
